@@ -709,7 +709,11 @@ def public_hoist_ok(k, A, B, C, rl, rg):
         snap = renamecheck.Snapshot(tree)
         slots0, _p = _slots(tree)
         first_stmts = [(n, n.body[0]) for n in ast.walk(tree) if isinstance(n, (ast.Module, ast.FunctionDef, ast.AsyncFunctionDef, ast.ClassDef)) and n.body]
-        out = renamecheck.run_pipeline(tree, rl, rg, True, stub_builtins=False)
+        fold = skeletons.HOIST_TEMPLATES[k][0].startswith('folded_')
+        if fold:
+            import copy
+            slots0 = dict((key, copy.deepcopy(v) if isinstance(v, ast.BinOp) else v) for key, v in slots0.items())
+        out = renamecheck.run_pipeline(tree, rl, rg, True, stub_builtins=False, extra={'constant_folding': True} if fold else None)
         rep = renamecheck.evaluate(an0, snap, out)
         if rep.problems:
             return str(rep.problems)
@@ -717,7 +721,7 @@ def public_hoist_ok(k, A, B, C, rl, rg):
         if p:
             import python_minifier
             from vf.stubs import ALL_OFF
-            return '%s; minify() gives %r' % (p, python_minifier.minify(text, **dict(ALL_OFF, rename_locals=rl, rename_globals=rg, hoist_literals=True)))
+            return '%s; minify() gives %r' % (p, python_minifier.minify(text, **dict(ALL_OFF, rename_locals=rl, rename_globals=rg, hoist_literals=True, constant_folding=fold)))
         return ''
     return _public(skeletons.HOIST_TEMPLATES, chk, k, A, B, C)
 
